@@ -30,6 +30,7 @@ func c16(c *Ctx) {
 	c16R4(c, "R4")
 	c16R5(c, "R5")
 	c16R6(c, "R6")
+	sDispatch(c, "R7/S-DISPATCH")
 }
 
 // c16R6: a client connection is one consistent bundle (encoder writes into the
